@@ -302,13 +302,9 @@ func checkC07(c *core.Ctx) {
 				c.Check("R1", "no unchecked helper "+bodyKeyAll(rf), anchorPos(gr.p, rf.Spec.Kind, mBR), true, "")
 			}
 			for _, a := range mf.Allocs {
-				typ, ctx := "?", "-"
-				if sh, ok := rf.fieldShapeFor(a.Operand); ok {
-					typ, ctx = shapeCtx(sh, a.Operand)
-				}
-				_ = typ
-				key := fmt.Sprintf("alloc %s %s %s ctx=%s", mBR, kindName(rf.Spec.Kind), a.Kind, ctx)
-				c.Check("R2", key, anchorPos(gr.p, rf.Spec.Kind, mBR), a.Bounded,
+				// one emitter branch (array / map) produces every such site
+				key := fmt.Sprintf("alloc %s %s", mBR, a.Kind)
+				c.Check("R2", key, anchorPos(gr.p, rf.Spec.Kind, mBR), a.Bounded || a.ZeroSize,
 					fmt.Sprintf("make(%s) for %s is sized by a count read from the input with no preceding check against the remaining input — %s", a.Kind, a.Operand, rf.where(a.Pos)))
 			}
 			gr.loopProgress(rf)
@@ -318,7 +314,7 @@ func checkC07(c *core.Ctx) {
 				if !a.Hint {
 					continue // a map made without a size hint allocates nothing up front
 				}
-				key := fmt.Sprintf("alloc %s %s %s", mSR, kindName(rf.Spec.Kind), a.Kind)
+				key := fmt.Sprintf("alloc %s %s", mSR, a.Kind)
 				c.Check("R2", key, anchorPos(gr.p, rf.Spec.Kind, mSR), false,
 					fmt.Sprintf("stream decoder allocates %s for %s from a count read off the stream; nothing bounds it — %s", a.Kind, a.Operand, rf.where(a.Pos)))
 			}
@@ -349,6 +345,7 @@ func (gr *genRun) loopProgress(rf *RecFacts) {
 		}
 		progress := false
 		bulk := false
+		zeroFootprint := false
 		ast.Inspect(body, func(m ast.Node) bool {
 			switch y := m.(type) {
 			case *ast.IfStmt:
@@ -363,8 +360,14 @@ func (gr *genRun) loopProgress(rf *RecFacts) {
 				}
 				base := fn[strings.LastIndex(fn, ".")+1:]
 				if strings.HasPrefix(strings.ToLower(base), "make") && strings.HasSuffix(base, "FromBytes") {
-					// a nested record decoder fails on an empty buffer unless the record is empty
-					progress = true
+					// a nested record decoder fails on an exhausted buffer unless the
+					// record has no wire footprint at all (a struct without fields)
+					tname := base[4 : len(base)-len("FromBytes")]
+					if sz := rf.GF.Methods[tname+".Size"]; sz != nil && sz.Body != nil && len(sz.Body.List) == 1 && strings.Join(strings.Fields(rf.GF.Snippet(sz.Body.List[0])), " ") == "return 0" {
+						zeroFootprint = true
+					} else {
+						progress = true
+					}
 				}
 			}
 			return true
@@ -375,29 +378,40 @@ func (gr *genRun) loopProgress(rf *RecFacts) {
 		}
 		typ := "loop"
 		key := fmt.Sprintf("loop progress %s %s", mBR, bodyKeyAll(rf))
+		if len(rf.Spec.Fields) == 1 && rf.Spec.Kind != genfacts.ClsUnion {
+			leaf := rf.Spec.Fields[0].Shape.Leaf()
+			if strings.HasPrefix(leaf, "En") {
+				leaf = "enum"
+			}
+			key = fmt.Sprintf("loop progress %s leaf=%s", mBR, leaf)
+		}
 		_ = typ
 		gr.c.Check("R3", key, anchorPos(gr.p, rf.Spec.Kind, mBR), progress || bulk,
-			"a count-bounded loop of the checked decoder has neither a per-iteration length check nor a preceding bulk check — "+rf.where(n.Pos()))
+			fmt.Sprintf("a count-bounded loop of the checked decoder has neither a per-iteration length check nor a preceding bulk check (element without wire footprint: %v): its iteration count is whatever the 4 count bytes say — %s", zeroFootprint, rf.where(n.Pos())))
 		return true
 	})
 }
 
 func (gr *genRun) precededByBulkCheck(rf *RecFacts, fd *ast.FuncDecl, loop ast.Node) bool {
 	found := false
-	ast.Inspect(fd.Body, func(n ast.Node) bool {
-		b, ok := n.(*ast.BlockStmt)
-		if !ok {
-			return true
-		}
-		for i, s := range b.List {
+	scanList := func(list []ast.Stmt) {
+		for i, s := range list {
 			if s == loop && i > 0 {
-				if ifs, ok := b.List[i-1].(*ast.IfStmt); ok {
+				if ifs, ok := list[i-1].(*ast.IfStmt); ok {
 					src := rf.GF.Snippet(ifs.Cond)
 					if strings.HasPrefix(src, "len(buf[at:]) < len(") {
 						found = true
 					}
 				}
 			}
+		}
+	}
+	ast.Inspect(fd.Body, func(n ast.Node) bool {
+		switch b := n.(type) {
+		case *ast.BlockStmt:
+			scanList(b.List)
+		case *ast.CaseClause:
+			scanList(b.Body)
 		}
 		return true
 	})
